@@ -12,8 +12,10 @@
   `ℂ` — and every circuit tree / every angle / every Jones vector, that each ingredient is what
   the statement says it is; section 10 ties them together (`polarised_simulation_spec`,
   `polarised_simulation_of_input`, over `ℂ`: `polarised_simulation_mass_field`); section 11 extends
-  the session theorems to histories that edit the circuit (`add`, re-tuned parameters).  What is
-  NOT proved is listed at the end of the file.
+  the session theorems to histories that edit the circuit (`add`, re-tuned parameters); section 12
+  is the state-vector path (`evolve`), section 13 `convert_polarized_state(inverse / symbolic)`,
+  section 14 heralds / post-selection / photon filter (composition with the C04 conditioning
+  specification).  What is NOT proved is listed at the end of the file.
 -/
 import PercevalModel.Lemmas.C13
 import PercevalModel.Props.C01
@@ -978,19 +980,20 @@ theorem polarised_evolve_of_circuit (c : PComp GQ) (h : c.WF) (hu : c.AllUnitary
   ⟨(polarised_evolve_spec _ (simMatrix_isUnitary c h hu A hA) s hs).2.2.2.1,
    (polarised_evolve_spec _ (simMatrix_isUnitary c h hu A hA) s hs).2.2.2.2⟩
 
-/-- **`evolve` with heralds / post-selection set on the layer** (`_postprocess_sv` →
-`post_select_statevector`; no photon-number filter on this path, hence `minPhotons = 0`): the
+/-- **`evolve` with heralds / post-selection set on the layer, heralded modes kept** (`_postprocess_sv`
+→ `post_select_statevector`; no photon-number filter on this path, hence `minPhotons = 0`): the
 retained mass is the retained mass of the conditioning specification (C04), and the re-normalised
-`|amplitude|²` summed over the keys reported with photon counts `u` is the conditioned probability
-of `u`. -/
+`|amplitude|²` summed over the keys with photon counts `u` is the conditioned probability of `u`.
+(`keep_heralds = False` is outside the model, see `selectSV`.) -/
 theorem evolve_selection_spec {N : ℕ} (U : Matrix (Fin N) (Fin N) GQ) (s : List ℕ)
-    (c : SimSpec.Cond) (hc : c.minPhotons = 0) :
+    (c : SimSpec.Cond) (hc : c.minPhotons = 0) (hk : c.keepHeralds = true) :
     (selectSV c (polSV U s)).2 = Dist.mass (SimSpec.retained c (polDist U s)) ∧
     ∀ u, (selectSV c (polSV U s)).2 ≠ 0 →
       (((selectSV c (polSV U s)).1.filter fun e => spatialOf e.key == u).map SVEntry.amp2).sum /
           (selectSV c (polSV U s)).2 =
         Dist.get (SimSpec.conditioned c (polDist U s)) u := by
   have hphys : ∀ t, SimSpec.physOk c t = true := by intro t; simp [SimSpec.physOk, hc]
+  have hrep : ∀ t, SimSpec.reported c t = t := by intro t; simp [SimSpec.reported, hk]
   have h1 : (selectSV c (polSV U s)).2 = Dist.mass (SimSpec.retained c (polDist U s)) := by
     rw [polSV_eq, polDist_eq]
     simp only [selectSV, SimSpec.retained, Dist.restrict, Dist.mass, List.filter_map, List.map_map,
@@ -1003,14 +1006,14 @@ theorem evolve_selection_spec {N : ℕ} (U : Matrix (Fin N) (Fin N) GQ) (s : Lis
   congr 1
   rw [polSV_eq, polDist_eq]
   simp only [selectSV, SimSpec.retained, Dist.restrict, Dist.get, Dist.mapKeys, List.filter_map,
-    List.map_map, Function.comp_def, spatialOf_reportedA, spatialOf_annotState, hphys, Bool.true_and]
+    List.map_map, Function.comp_def, hrep, spatialOf_annotState, hphys, Bool.true_and]
   simp only [SVEntry.amp2, prob, Nat.cast_mul]
 
 /-- non-vacuity of `evolve_selection_spec`: without herald and post-selection nothing is dropped —
 for a unitary matrix the retained mass is 1 (≠ 0) -/
 example {m : ℕ} (W : Matrix (Fin (m * 2)) (Fin (m * 2)) GQ) (hW : IsUnitary W) (s : List ℕ)
     (hs : s.length = m * 2) : (selectSV ⟨[], .tt, 0, true⟩ (polSV W s)).2 = 1 := by
-  rw [(evolve_selection_spec W s ⟨[], .tt, 0, true⟩ rfl).1]
+  rw [(evolve_selection_spec W s ⟨[], .tt, 0, true⟩ rfl rfl).1]
   have : SimSpec.retained ⟨[], .tt, 0, true⟩ (polDist W s) = polDist W s :=
     restrict_all _ _ (fun p _ => by simp [SimSpec.physOk, SimSpec.logicOk, SimSpec.heraldsOk, SimSpec.PS.eval])
   rw [this, merge_marginal, mass_spatialDist]
@@ -1315,10 +1318,17 @@ end Selection
 /-!
 ### What is proved here and what is not
 
-Proved (sections 1–11): every ingredient of the statement, the top-level composition
+Proved (sections 1–14): every ingredient of the statement, the top-level composition
 (`polarised_simulation_spec`, `polarised_simulation_of_input`, `polarised_simulation_mass_field`,
-`polarised_amplitude_factorises`) and the session theorems for histories of `set_circuit`, edits
-(`add`, re-tuning — any mutation) and queries.
+`polarised_amplitude_factorises`), the session theorems for histories of `set_circuit`, edits
+(`add`, re-tuning — any mutation) and queries; the state-vector path (`polarised_evolve_spec`:
+injective annotation, amplitudes = spatial amplitudes, norm 1, agreement with `probs`;
+`evolve_selection_spec` for heralds / post-selection with the heralded modes kept);
+`convert_polarized_state(inverse=True)` (`prep_inverse_spec`, `prep_inverse_unitary`) and the symbolic
+branch's block (`symbolic_block_unitary`); heralds / post-selection / photon filter on a polarised
+simulation = the C04 conditioning of the polarised distribution for the repaired layer
+(`polarised_selection_spec`), with the witness of the code as it stood
+(`polProbs_current_fails_on_herald_filter`).
 
 NOT proved (validated by the correspondence only, or outside the model):
 * `upolOf`/`blocksOf`/`scanAll` compose the model's definitions as `Driver/C13.lean: envGQ` does
@@ -1327,9 +1337,17 @@ NOT proved (validated by the correspondence only, or outside the model):
 * The exact-`ρ` hypothesis: over `ℚ[i]` the driver uses one Newton step for `1/√x`, so the matrix
   it simulates is unitary only up to `10⁻²⁴`; the mass-one theorem is exact for exact `ρ` (always
   available over `ℂ`, `polarised_simulation_mass_field`).
-* `evolve()` on polarised states / `_postprocess_sv_impl` (amplitudes with `P:H`/`P:V`
-  annotations) is NOT in the model: there is no definition to state a theorem about; the harness
-  compares only the merged `|amplitude|²` of `evolve` within sessions.
+* `evolve`: the square root `√(∏s!∏t!)` (and `√(retained mass)` with a selection) is taken outside
+  the model; `keep_heralds(False)` on the state-vector path is NOT modelled (native
+  `BasicState.remove_modes` on annotated states, coherent addition of amplitudes that differ only in
+  a dropped photon's polarisation); the native StateVector drops components below `10⁻⁶`.
+* symbolic conversion: sympy's arithmetic on the stored floating angles is outside the model; the
+  model's exact orthogonality test is on the rationals the harness sends (in practice both reject
+  every second polarisation, `H`/`V` included, because the stored angles are single-precision floats).
+* selection: that the wrapped simulator's filter is `restrict` + `normalize` of the full distribution
+  (`innerProbs`) and that detectors are ignored by the layer (`_prepare_detectors_impl` returns
+  `None`) are validated by testing; the logical performance reported when the physical performance
+  is 0 is unspecified; noisy sources, losses and time delays on polarised processors are not modelled.
 * That the real object has no hidden state beyond `_upol` and the inner circuit, that
   `Parameter.set_value` + `set_circuit` recompiles, and that `Processor.add` is seen by the next
   `probs()` — the session theorems are about the model's machine; model = code by testing.
